@@ -110,6 +110,24 @@ var stringContexts = []litContext{
 	{"raw-array", func(q string) string { return "[[{{ [" + q + "][0].raw() }}]]" }, func(l string) string { return l }, true},
 }
 
+var builtinContexts []litContext
+
+// every string built-in called on the variable (an element, a loop variable) that holds the literal, before the value is
+// printed: the stored literal is what it was
+func init() {
+	for _, fn := range []string{"trim()", "trimLeft()", "trimRight()", "trim(\" <&\")", "upper()", "lower()", "capitalize()", "reverse()", "repeat(2)", "truncate(1)", "truncate(1, \"<\")", "first()", "last()", "at(0)", "len()", "split(\"&\")", "contains(\"<\")", "raw().trim()", "trim().raw()", "str()", "decimal()"} {
+		fn := fn
+		if fn == "str()" || fn == "decimal()" {
+			continue // not string built-ins on every receiver
+		}
+		builtinContexts = append(builtinContexts,
+			litContext{"variable-after-" + fn, func(q string) string { return "{{ v = " + q + " }}{{ w = v." + fn + " }}{{ u = v." + fn + " }}[[{{ v }}]]" }, func(l string) string { return l }, false},
+			litContext{"raw-of-variable-after-" + fn, func(q string) string { return "{{ v = " + q + " }}@each(k in [1, 2]){{ w = v." + fn + " }}@end[[{{ v.raw() }}]]" }, func(l string) string { return l }, true},
+			litContext{"element-after-" + fn, func(q string) string { return "{{ a = [" + q + "] }}{{ w = a[0]." + fn + " }}@each(e in a){{ x = e." + fn + " }}@end[[{{ a[0] }}]]" }, func(l string) string { return l }, false},
+		)
+	}
+}
+
 // contexts in which the value holding the literal is used by something else first - a concatenation
 // through then()/rand()/an element access, an append on the same array - and only then printed
 var reuseContexts = []litContext{
@@ -261,6 +279,8 @@ func init() {
 						runLit(c, s+a)
 					}
 				}})
+			// every string built-in runs on the stored literal before it is printed
+			secs = append(secs, seqSections("builtin-literal-", escapeAtoms, kt, func(c *core.Ctx, l string) { runIn(c, l, builtinContexts) })...)
 			// the value is used by something else before it is printed
 			secs = append(secs, seqSections("reuse-literal-", escapeAtoms, kt, func(c *core.Ctx, l string) { runIn(c, l, reuseContexts) })...)
 			// literals that span lines (LF, CRLF, CR) or hold a percent sign: through strings, through template
